@@ -17,7 +17,7 @@ import subprocess
 import sys
 import time
 
-VERIF = '/verif'
+VERIF = os.path.dirname(os.path.abspath(__file__))
 SIM = VERIF + '/sim'
 TGT = VERIF + '/target'
 KNOWN = VERIF + '/known_findings.json'
